@@ -3,7 +3,8 @@ import numpy as np
 from vmon import gen, drive, workloads as wl
 from vmon.harness import Result
 from vmon.probe import Hooks
-from vmon.stepmon import StepMonitor, wall_widths, sc_flows, byp_flows
+from vmon.stepmon import (StepMonitor, wall_widths, sc_flows, byp_flows,
+                          duct_heating)
 
 PROPERTY = 'C01'
 LEVEL = 'exploration'
@@ -95,7 +96,8 @@ def _conv_flux_int(reg, rec, k_duct_used):
     if reg._conv_approx:
         R = 1.0 / h + 0.5 * (reg.duct_ftf[0][1] - reg.duct_ftf[0][0]) / 2.0 \
             / k_duct_used
-        return w * (rec['post']['duct_mw'][0] - T) / R
+        return w * (rec['post']['duct_mw'][0]
+                    + duct_heating(reg, rec)[0] - T) / R
     return w * h * (rec['post']['duct_surf'][0, 0] - T)
 
 
@@ -157,9 +159,11 @@ def check_rodded(res, rec, key):
                 t_in = 0.5 * (reg.duct_ftf[i][1] - reg.duct_ftf[i][0])
                 t_out = 0.5 * (reg.duct_ftf[i + 1][1]
                                - reg.duct_ftf[i + 1][0])
-                q_in = w[i] * (rec['post']['duct_mw'][i] - Tb0) \
+                dTq = duct_heating(reg, rec)
+                q_in = w[i] * (rec['post']['duct_mw'][i] + dTq[i] - Tb0) \
                     / (1 / h + 0.5 * t_in / k_in)
-                q_out = w[i + 1] * (rec['post']['duct_mw'][i + 1] - Tb0) \
+                q_out = w[i + 1] * (rec['post']['duct_mw'][i + 1]
+                                    + dTq[i + 1] - Tb0) \
                     / (1 / h + 0.5 * t_out / k_out)
             else:
                 q_in = w[i] * h * (rec['post']['duct_surf'][i, 1] - Tb0)
@@ -279,7 +283,12 @@ def probe_exchange(res, reg, rng, key):
     if not reg.is_rodded:
         return
     saved = {k: v.copy() for k, v in reg.temp.items()}
+    heat = getattr(reg, '_dT_duct_heating', None)
     try:
+        if heat is not None:
+            # unheated wall for the probe (the low-flow approximation adds
+            # the wall-heating term kept from the last wall solve)
+            reg._dT_duct_heating = np.zeros_like(heat)
         n = reg.subchannel.n_sc['coolant']['total']
         n_int = reg.subchannel.n_sc['coolant']['interior']
         T = 700.0 + 50.0 * rng.random(n)
@@ -294,6 +303,8 @@ def probe_exchange(res, reg, rng, key):
                   'inter-subchannel exchange creates or destroys heat', key)
         res.stat('I0_max_dT', float(np.max(np.abs(dT))))
     finally:
+        if heat is not None:
+            reg._dT_duct_heating = heat
         for k, v in saved.items():
             reg.temp[k][...] = v
 
